@@ -18,6 +18,7 @@ import (
 	"io"
 	"math/rand"
 	"os"
+	"path"
 	"sort"
 	"strings"
 	"sync"
@@ -215,14 +216,27 @@ func c02Build(l c02Layer) (*c02Built, error) {
 	bb := blob.Bytes()
 	b := &c02Built{l: l, sr: io.NewSectionReader(bytes.NewReader(bb), 0, int64(len(bb))), tocDgst: rc.TOCDigest(), cl: cl,
 		paths: map[int][]string{}}
-	// layout as the REAL table of contents describes it
-	er, err := estargz.Open(io.NewSectionReader(bytes.NewReader(bb), 0, int64(len(bb))), estargz.WithDecompressors(cl))
+	// layout as the REAL table of contents describes it: the TOC JSON is parsed here independently of the reader
+	// code under test (footer -> TOC offset -> JTOC entries), not through estargz.Open / ChunkEntryForOffset
+	fsz := cl.FooterSize()
+	footer := make([]byte, fsz)
+	if _, err := b.sr.ReadAt(footer, b.sr.Size()-fsz); err != nil {
+		return nil, fmt.Errorf("footer: %w", err)
+	}
+	_, tocOff, tocSize, err := cl.ParseFooter(footer)
 	if err != nil {
-		return nil, fmt.Errorf("estargz.Open: %w", err)
+		return nil, fmt.Errorf("ParseFooter: %w", err)
+	}
+	if tocSize <= 0 {
+		tocSize = b.sr.Size() - tocOff - fsz
+	}
+	jtoc, _, err := cl.ParseTOC(io.NewSectionReader(b.sr, tocOff, tocSize))
+	if err != nil {
+		return nil, fmt.Errorf("ParseTOC: %w", err)
 	}
 	type rawChunk struct {
-		f, off, size   int
-		offset, inner  int64
+		f, off, size  int
+		offset, inner int64
 	}
 	var raw []rawChunk
 	final := map[string]c02Entry{} // last regular entry of a name wins
@@ -234,23 +248,41 @@ func c02Build(l c02Layer) (*c02Built, error) {
 			delete(final, name)
 		}
 	}
+	tocChunks := map[string][]rawChunk{} // clean name -> chunks in TOC order
+	var lastName string
+	var lastSize int64
+	for _, te := range jtoc.Entries {
+		switch te.Type {
+		case "reg":
+			lastName, lastSize = strings.TrimPrefix(path.Clean("/"+te.Name), "/"), te.Size
+			tocChunks[lastName] = nil // a later entry of the same name replaces the earlier one
+			if te.Size == 0 {
+				continue
+			}
+		case "chunk":
+		default:
+			continue
+		}
+		size := te.ChunkSize
+		if size == 0 {
+			size = lastSize - te.ChunkOffset
+		}
+		tocChunks[lastName] = append(tocChunks[lastName], rawChunk{0, int(te.ChunkOffset), int(size), te.Offset, te.InnerOffset})
+	}
+	hasEntry := func(name string) bool { _, ok := tocChunks[name]; return ok }
 	addFile := func(f int, name string, size int) error {
 		b.layout.Sizes = append(b.layout.Sizes, [2]int{f, size})
 		if size > b.maxSize {
 			b.maxSize = size
 		}
-		for off := 0; off < size; {
-			ce, ok := er.ChunkEntryForOffset(name, int64(off))
-			if !ok {
-				return fmt.Errorf("no chunk of %q at %d", name, off)
-			}
-			raw = append(raw, rawChunk{f, int(ce.ChunkOffset), int(ce.ChunkSize), ce.Offset, ce.InnerOffset})
-			off = int(ce.ChunkOffset + ce.ChunkSize)
+		for _, c := range tocChunks[name] {
+			c.f = f
+			raw = append(raw, c)
 		}
 		return nil
 	}
 	for _, lm := range []string{estargz.PrefetchLandmark, estargz.NoPrefetchLandmark} {
-		if _, ok := er.Lookup(lm); ok {
+		if hasEntry(lm) {
 			b.layout.Prefetch = lm == estargz.PrefetchLandmark
 			b.paths[c02LM] = []string{lm}
 			if err := addFile(c02LM, lm, 1); err != nil {
@@ -364,11 +396,13 @@ type c02Inst struct {
 	ids     map[int]uint32
 	keys    map[string][3]int
 	inos    map[uint64]int
+	nodes   map[string]*node // nodes already looked up, by path (as the kernel keeps inodes): memoised listings survive
+	nmu     sync.Mutex
 	cleanup []func()
 }
 
 func c02Serve(b *c02Built, store metadata.Store) (*c02Inst, error) {
-	in := &c02Inst{b: b, ids: map[int]uint32{}, keys: map[string][3]int{}, inos: map[uint64]int{}}
+	in := &c02Inst{b: b, ids: map[int]uint32{}, keys: map[string][3]int{}, inos: map[uint64]int{}, nodes: map[string]*node{}}
 	mr, err := store(io.NewSectionReader(b.sr, 0, b.sr.Size()), metadata.WithDecompressors(b.cl))
 	if err != nil {
 		return nil, fmt.Errorf("metadata store: %w", err)
@@ -495,8 +529,15 @@ func (in *c02Inst) snapshot() [][]any {
 }
 
 func (in *c02Inst) walk(p []string) (*node, syscall.Errno) {
+	in.nmu.Lock()
+	defer in.nmu.Unlock()
 	d := in.root
-	for _, name := range p {
+	for i, name := range p {
+		key := strings.Join(p[:i+1], "/")
+		if n, ok := in.nodes[key]; ok {
+			d = n
+			continue
+		}
 		var eo fuse.EntryOut
 		di, errno := d.Lookup(context.Background(), name, &eo)
 		if errno != 0 {
@@ -506,6 +547,7 @@ func (in *c02Inst) walk(p []string) (*node, syscall.Errno) {
 		if !ok {
 			return nil, syscall.ENOTSUP
 		}
+		in.nodes[key] = n
 		d = n
 	}
 	return d, 0
@@ -614,9 +656,14 @@ func (in *c02Inst) step(s map[string]any) map[string]any {
 		d, errno := in.walk(dir)
 		if errno == 0 {
 			var eo fuse.EntryOut
-			_, errno = d.Lookup(context.Background(), name, &eo)
+			var di *fusefs.Inode
+			di, errno = d.Lookup(context.Background(), name, &eo)
 			if errno == 0 {
 				res["attr"] = in.attr(&eo.Attr)
+				key := strings.Join(append(append([]string{}, dir...), name), "/")
+				if n, ok := di.Operations().(*node); ok && in.nodes[key] == nil {
+					in.nodes[key] = n
+				}
 			}
 		}
 		res["errno"] = int(errno)
